@@ -128,7 +128,7 @@ def gen_async_case(r, fns):
             if k < 4:
                 evs.append(call(f, x if r.chance(1, 2) else r.below(cap)))      # same key / same cache meanwhile
             elif k < 6:
-                evs.append(call(g, r.below(3)))
+                evs.append(call(g, 0 if g["sig"] == 3 else r.below(3)))
             elif k == 6:
                 evs.append("E 0 invw %d %d" % (f["idx"], x))
             elif k == 7:
